@@ -417,9 +417,18 @@ def run(ctx) -> None:
         for p in ps:
             held = 0
             tested_in_section = set()
+            skip = 0
             for e in p.evs:
-                if e.kind == "inline":
-                    break
+                # the other operation judged here is skipped where it is inlined (it has its own instance); private helpers that hold a
+                # piece of this operation (e.g. the test-and-set itself) are followed
+                if e.kind == "inline" and (skip or e.text.split(".")[-1] in ("stop", "_stop_process")):
+                    skip += 1
+                    continue
+                if e.kind == "inline_end" and skip:
+                    skip -= 1
+                    continue
+                if skip:
+                    continue
                 if e.kind == "acquire" and e.text == "self._stopping_lock":
                     held += 1
                     tested_in_section = set()
